@@ -74,11 +74,19 @@ type Contract struct {
 	Where      string
 	ResultNames []string
 	Uses       []*Clause // lemma instantiations: "use lemmaName(args)" evaluated at entry
+	CallSites  []*CallSite // callsite F assert[label] expr: obligation at every call of F made by this function, over arg0, arg1, ...
 	Cuts       []*Cut    // intermediate assertions anchored on a source statement: after "<stmt text>" assert[label] expr
 	Inlines    map[string]int // callees whose real bodies are executed in place while this function is verified (value: how often their loops are unrolled)
 	FnType     bool      // "contract type T": contract of every value of the named function type T that is not a known function (self = the value)
 	FnParamOf, FnParam string // "contract fnparam F.p": function key and parameter name
 	UnrollAll  int       // "unroll n": loops of this function are unrolled n times when its body is executed in place
+}
+
+// CallSite: an obligation on what this function hands to a callee, at every call of it (arg0 is the receiver of a
+// method). Unlike a cut it is not anchored on source text: it is there whenever the call is.
+type CallSite struct {
+	Fn string
+	Cl *Clause
 }
 
 // Cut: an intermediate assertion. It is an obligation where it stands and an assumption for what follows (the usual
@@ -117,7 +125,8 @@ func clauseTexts(cs []*Clause) string {
 	return strings.Join(ts, ", ")
 }
 
-var clauseRe = regexp.MustCompile(`^(requires|ensures|invariant|modifies|decreases|let|loop|split|trusted|inlines|inline|unroll|pure|noalloc|retains|use|results|after)\b(\[[^\]]*\])?\s*(.*)$`)
+var clauseRe = regexp.MustCompile(`^(requires|ensures|invariant|modifies|decreases|let|loop|split|trusted|inlines|inline|unroll|pure|noalloc|retains|use|results|after|callsite)\b(\[[^\]]*\])?\s*(.*)$`)
+var callsiteRe = regexp.MustCompile(`^(\S+)\s+assert(\[[^\]]*\])?\s+(.*)$`)
 var afterRe = regexp.MustCompile("^`([^`]*)`\\s+(assert|cut|use|let)(\\[[^\\]]*\\])?\\s+(.*)$")
 
 // parseContractFile reads //@ blocks from a file. pkgName qualifies unqualified keys.
@@ -321,6 +330,14 @@ func parseContractFile(path, pkgName, pkgPath string) ([]*Contract, error) {
 			last.Splits = append(last.Splits, rest)
 			last = &Clause{Text: "", Where: where} // continuation lines after split are not supported
 			last = nil
+		case "callsite":
+			m2 := callsiteRe.FindStringSubmatch(strings.TrimSpace(rest))
+			if m2 == nil {
+				return nil, fmt.Errorf("%s: callsite <function> assert[label] <expr>", where)
+			}
+			c := &Clause{Label: strings.Trim(m2[2], "[]"), Text: m2[3], Where: where}
+			last = c
+			cur.CallSites = append(cur.CallSites, &CallSite{Fn: qualifyKey(m2[1], pkgName), Cl: c})
 		case "inlines":
 			// inlines F, G unroll 6, H : the bodies of these callees are executed in place (loops of G unrolled 6 times, with an
 			// unwinding obligation), instead of being used through their contracts
@@ -384,6 +401,9 @@ func parseContractFile(path, pkgName, pkgPath string) ([]*Contract, error) {
 		}
 		for _, ct := range c.Cuts {
 			all = append(all, []*Clause{ct.Cl})
+		}
+		for _, cs := range c.CallSites {
+			all = append(all, []*Clause{cs.Cl})
 		}
 		for _, list := range all {
 			for _, cl := range list {
